@@ -431,6 +431,8 @@ class AccessMixin:
     # ---- dicts
     def dict_get(self, cell, key, raising=False, default=None):
         ctx = self.ctx
+        if getattr(cell, "unknown", False):
+            return Opaque("dict-item", fresh=cell.fresh)
         if cell.sym is None:
             try:
                 hk = self._hashable(key)
@@ -474,13 +476,22 @@ class AccessMixin:
     def dict_set(self, cell, key, v):
         ctx = self.ctx
         self.mutate(cell, "dict item assignment")
+        if getattr(cell, "unknown", False):
+            return
         if cell.sym is None:
             try:
                 cell.conc[self._hashable(key)] = v
                 self.write_back(cell)
                 return
             except Unsupported:
-                self.symbolise(cell, self.dict_type_guess(cell, key, v))
+                try:
+                    self.symbolise(cell, self.dict_type_guess(cell, key, v))
+                except Unsupported:
+                    cell.conc, cell.sym, cell.unknown = None, None, True      # content no longer tracked
+                    self.write_back_unknown(cell)
+                    return
+        if getattr(cell, "unknown", False):
+            return
         ty = cell.sym.ty
         s = sort_of(ty)
         kt = ctx.term(key, ty.args[0])
@@ -582,8 +593,17 @@ class AccessMixin:
     def e_SetComp(self, n):
         return self.comprehension(n, "set")
 
+    def e_DictComp(self, n):
+        if self.ctx.spec:
+            raise Unsupported("dict comprehension in a specification")
+        for g in n.generators:
+            self.eval_tolerant(g.iter)
+        return self.unknown_cell("dict")
+
     def iter_items_concrete(self, it):
         """python list of items if the iterable is concrete, else None"""
+        if getattr(it, "unknown", False):
+            return None
         if isinstance(it, (tuple, list)):
             return list(it)
         if isinstance(it, str):
